@@ -177,9 +177,14 @@ func RunProperty(p *Property, o Options) int {
 				}
 			}
 			if !stable {
+				// The failure was observed on the real code but did not recur when the same
+				// vector was re-executed: the code under test keeps hidden state between
+				// executions (a pool, a cache, a package-level buffer) or depends on map
+				// iteration / timing.  That is reported as a violation (the observation is
+				// real), flagged as not reproduced.
 				unstable++
-				fmt.Fprintf(os.Stderr, "CHECK-BROKEN property=%s harness=%s: violation %q did not reproduce on re-execution of the same vector %v\n", p.ID, st.Harness, v.Key, v.Vector)
-				continue
+				v.What += " [observed once; did not recur on re-execution of the same vector: hidden state or nondeterminism in the code under test]"
+				fmt.Fprintf(os.Stderr, "note property=%s harness=%s: violation %q did not reproduce on re-execution of the same vector %v\n", p.ID, st.Harness, v.Key, v.Vector)
 			}
 			if f := matchOpen(findings, p.ID, v); f != nil {
 				nknown++
@@ -287,9 +292,6 @@ func RunProperty(p *Property, o Options) int {
 	}
 	fmt.Printf("[%s] tier=%s states=%d transitions=%d traces=%d nontrivial=%d exhaustive=%v violations=%d known=%d wall=%.1fs\n",
 		p.ID, o.Tier, states, trans, traces, nontriv, exhaustive, nviol, nknown, time.Since(t0).Seconds())
-	if unstable > 0 {
-		return 2
-	}
 	if nviol > 0 {
 		return 1
 	}
